@@ -219,11 +219,195 @@ theorem k2_spec (fuel0 : Nat) (P : Dec) (hP : Digits P) (x r : Nat) (e : Gen.cal
   obtain ⟨e', hl, _, hr⟩ := for3_loop fuel0 P hP x r e ⟨hnum, hres⟩
   exact ⟨e', hl, hr⟩
 
+/-! ### the search loop: strip the leading zeros -/
+
+def StripInv (q : Dec) (i : Nat) (e : Gen.calculus_subtraction.Env) : Prop :=
+  e.residue = dstr q ∧ q.take i = List.replicate i 0
+
+theorem for4_body_spec (fuel0 : Nat) (q : Dec) (hq : Digits q) (i : Nat) (hi : i < q.length)
+    (e : Gen.calculus_subtraction.Env) (h : StripInv q i e) :
+    (∃ e', Gen.calculus_subtraction.for4_body fuel0 (.int (i : Int)) e = .ok (.norm e') ∧ StripInv q (i + 1) e') ∨
+      (∃ v, Gen.calculus_subtraction.for4_body fuel0 (.int (i : Int)) e = .ok (.ret v) ∧
+        v = dstr (stripZeros q)) := by
+  obtain ⟨hres, hz⟩ := h
+  simp only [Gen.calculus_subtraction.for4_body, hres, pyIndex_dstr hi, bnd_ok, pyNe_def,
+    eqb_digit_lit_zero (hq.getElem i hi)]
+  by_cases hd : q[i] = 0
+  · left
+    simp only [hd, decide_true, Bool.not_true, Bool.false_eq_true, if_false]
+    refine ⟨_, rfl, rfl, ?_⟩
+    rw [← List.take_append_getElem hi, hz, hd, List.replicate_succ']
+  · right
+    simp only [hd, decide_false, Bool.not_false, if_true, pySliceV_dstr_from, bnd_ok]
+    refine ⟨_, rfl, ?_⟩
+    rw [stripZeros_eq_drop hi hz hd]
+
+theorem for4_loop (fuel0 : Nat) (q : Dec) (hq : Digits q) (e : Gen.calculus_subtraction.Env)
+    (hres : e.residue = dstr q) :
+    (∃ e', forLoop (Gen.calculus_subtraction.for4_body fuel0)
+        ((List.range q.length).map fun (i : Nat) => PV.int (i : Int)) e = .ok (.norm e') ∧
+        stripZeros q = [0]) ∨
+      (∃ v, forLoop (Gen.calculus_subtraction.for4_body fuel0)
+        ((List.range q.length).map fun (i : Nat) => PV.int (i : Int)) e = .ok (.ret v) ∧
+        v = dstr (stripZeros q)) := by
+  have key := forLoop_inv_ret (body := Gen.calculus_subtraction.for4_body fuel0) (StripInv q)
+    (fun v => v = dstr (stripZeros q))
+    (xs := (List.range q.length).map fun (i : Nat) => PV.int (i : Int))
+    (fun i hi e he => by
+      have hi' : i < q.length := by simpa using hi
+      have : ((List.range q.length).map fun (i : Nat) => PV.int (i : Int))[i] = PV.int (i : Int) := by simp
+      rw [this]
+      exact for4_body_spec fuel0 q hq i hi' e he)
+    (e := e) ⟨hres, rfl⟩
+  rcases key with ⟨e', hl, hinv⟩ | hret
+  · left
+    refine ⟨e', hl, ?_⟩
+    have := hinv.2
+    simp only [List.length_map, List.length_range] at this
+    exact stripZeros_of_all_zero this
+  · right; exact hret
+
+/-- `k4`: strip the zeros of the residue, `"0"` if there is nothing else. -/
+theorem k4_spec (fuel0 : Nat) (q : Dec) (hq : Digits q) (e : Gen.calculus_subtraction.Env)
+    (hres : e.residue = dstr q) :
+    Gen.calculus_subtraction.k4 fuel0 e = .ok (.ret (dstr (stripZeros q))) := by
+  simp only [Gen.calculus_subtraction.k4, hres, pyLen_dstr, bnd_ok, pyRange1_nat, pyIter_list]
+  apply seq_eq_of_norm_or_ret _ _ (for4_loop fuel0 q hq _ (by exact hres))
+  · intro e2 hz
+    rw [Gen.calculus_subtraction.k3, hz, str_lit_zero]
+  · intro v hv
+    rw [hv]
+
+/-! ### the body of the outer loop (one iteration, `index = 0`) -/
+
+/-- glue: two statements that both end normally. -/
+theorem seq_norm_ex {ε} {m : R (Flow ε)} {k : ε → R (Flow ε)} (Rm : ε → Prop) {Q : ε → Prop}
+    (hm : ∃ e1, m = .ok (.norm e1) ∧ Rm e1) (hk : ∀ e1, Rm e1 → ∃ e', k e1 = .ok (.norm e') ∧ Q e') :
+    ∃ e', seq m k = .ok (.norm e') ∧ Q e' := by
+  obtain ⟨e1, rfl, h1⟩ := hm; exact hk e1 h1
+
+theorem base_idx (b : Nat) : pyIndex (natsPV [b]) (.int 0) = .ok (.int (b : Int)) := by simp [natsPV]
+
+/-- no borrow. -/
+theorem for1_body_ge (fuel : Nat) (P : Dec) (hP : Digits P) (last b : Nat) (hl : last < 10) (hge : b ≤ last)
+    (e : Gen.calculus_subtraction.Env) (hnum : e.number = natsPV (P ++ [last])) (hbase : e.base = natsPV [b])
+    (hres : e.residue = dstr []) :
+    ∃ e', Gen.calculus_subtraction.for1_body fuel (.int 0) e = .ok (.norm e') ∧
+      e'.residue = dstr (P ++ [last - b]) := by
+  have hc : (((P ++ [last]).length : Nat) : Int) - 1 - 0 = (P.length : Int) := by
+    simp only [List.length_append, List.length_cons, List.length_nil]; omega
+  have hcb : ((([b] : List Nat).length : Nat) : Int) - 1 - 0 = 0 := by
+    simp only [List.length_cons, List.length_nil]; omega
+  have hsub : (last : Int) - (b : Int) = ((last - b : Nat) : Int) := by omega
+  simp only [Gen.calculus_subtraction.for1_body, hnum, hbase, hres, pyLen_natsPV, pySub_int, bnd_ok, hc, hcb,
+    idx_mid P last [] P.length rfl, base_idx, pyInt_int, pyGe_int, Int.ofNat_le, hge, decide_true, if_true,
+    hsub, pyStr_digit (show last - b < 10 by omega), ← dstr_singleton, pyAdd_dstr, List.append_nil]
+  apply seq_norm_ex (fun e1 => e1.number = natsPV (P ++ [last]) ∧ e1.residue = dstr [last - b] ∧
+    e1.index = .int 0) ⟨_, rfl, rfl, rfl, rfl⟩
+  intro e1 ⟨h1, h2, h3⟩
+  exact k2_spec fuel P hP last (last - b) e1 h1 h2 h3
+
+/-- borrow: the prefix is `A ++ (d+1) :: 0…0`. -/
+theorem for1_body_lt (fuel : Nat) (A : Dec) (d z : Nat) (hA : Digits A) (hd : d + 1 < 10) (hz : z < fuel)
+    (last b : Nat) (hb : b < 10) (hlt : last < b)
+    (e : Gen.calculus_subtraction.Env)
+    (hnum : e.number = natsPV ((A ++ (d + 1) :: List.replicate z 0) ++ [last]))
+    (hbase : e.base = natsPV [b]) (hres : e.residue = dstr []) :
+    ∃ e', Gen.calculus_subtraction.for1_body fuel (.int 0) e = .ok (.norm e') ∧
+      e'.residue = dstr ((A ++ d :: List.replicate z 9) ++ [10 + last - b]) := by
+  have hlen : A.length + 1 + z = (A ++ (d + 1) :: List.replicate z 0).length := by
+    simp only [List.length_append, List.length_cons, List.length_replicate]; omega
+  have hc : ((((A ++ (d + 1) :: List.replicate z 0) ++ [last]).length : Nat) : Int) - 1 - 0 =
+      ((A.length + 1 + z : Nat) : Int) := by
+    simp only [List.length_append, List.length_cons, List.length_nil, List.length_replicate]; omega
+  have hcb : ((([b] : List Nat).length : Nat) : Int) - 1 - 0 = 0 := by
+    simp only [List.length_cons, List.length_nil]; omega
+  have hnge : ¬ b ≤ last := by omega
+  have hsub : (10 : Int) + (last : Int) - (b : Int) = ((10 + last - b : Nat) : Int) := by omega
+  simp only [Gen.calculus_subtraction.for1_body, hnum, hbase, hres, pyLen_natsPV, pySub_int, pyAdd_int, bnd_ok,
+    hc, hcb, idx_mid _ last [] _ hlen, base_idx, pyInt_int, pyGe_int, Int.ofNat_le, hnge, decide_false,
+    Bool.false_eq_true, if_false,
+    hsub, pyStr_digit (show 10 + last - b < 10 by omega), ← dstr_singleton, pyAdd_dstr, List.append_nil]
+  have hP' : Digits (A ++ d :: List.replicate z 9) := by
+    rw [Digits_append, Digits_cons]
+    exact ⟨hA, by omega, Digits_replicate (by omega)⟩
+  apply seq_norm_ex (fun e1 => e1.number = natsPV ((A ++ d :: List.replicate z 9) ++ [last]) ∧
+    e1.residue = dstr [10 + last - b] ∧ e1.index = .int 0)
+  · apply seq_norm_ex (fun e1 => e1.number = natsPV (A ++ (d + 1) :: (List.replicate z 9 ++ [last])) ∧
+      e1.flag_a = .int ((A.length + 1 : Nat) : Int) ∧ e1.residue = dstr [10 + last - b] ∧ e1.index = .int 0)
+    · exact while2_spec fuel A d z [last] fuel _ hz (by simp) (by rfl)
+    · intro e1 ⟨h1, h2, h3, h4⟩
+      obtain ⟨e2, hk, hn2, hr2, hi2⟩ := k1_spec fuel A d _ e1 h1 h2
+      refine ⟨e2, hk, ?_, hr2.trans h3, hi2.trans h4⟩
+      rw [hn2]; simp
+  · intro e1 ⟨h1, h2, h3⟩
+    exact k2_spec fuel _ hP' last _ e1 h1 h2 h3
+
+/-- the outer loop runs once. -/
+theorem for1_once {fuel : Nat} {e e' : Gen.calculus_subtraction.Env}
+    (h : Gen.calculus_subtraction.for1_body fuel (.int 0) e = .ok (.norm e')) :
+    forLoop (Gen.calculus_subtraction.for1_body fuel) [.int 0] e = .ok (.norm e') := by
+  rw [forLoop_cons_norm h, forLoop_nil]
+
+/-- the function body, given the outcome of the single iteration of the outer loop. -/
+theorem body_spec (fuel : Nat) (s : Dec) (hs : Digits s) (b : Nat) (hb : b < 10) (q : Dec) (hq : Digits q)
+    (h1 : ∀ e : Gen.calculus_subtraction.Env, e.number = natsPV s → e.base = natsPV [b] → e.residue = dstr [] →
+      ∃ e', Gen.calculus_subtraction.for1_body fuel (.int 0) e = .ok (.norm e') ∧ e'.residue = dstr q) :
+    Gen.calculus_subtraction fuel (dstr s) (dstr [b]) = .ok (dstr (stripZeros q)) := by
+  have hbd : Digits [b] := by simpa using hb
+  have hr1 : (List.range ([b] : List Nat).length).map (fun (i : Nat) => PV.int (i : Int)) = [.int 0] := rfl
+  simp only [Gen.calculus_subtraction, Gen.calculus_subtraction.body, pyMap_pyInt_dstr hs, pyMap_pyInt_dstr hbd,
+    bnd_ok, pyLen_natsPV, pyRange1_nat, hr1, pyIter_list]
+  apply callResult_seq_of_norm (fun e1 => e1.residue = dstr q)
+  · have H : ∀ E : Gen.calculus_subtraction.Env, E.number = natsPV s → E.base = natsPV [b] →
+        E.residue = dstr [] → ∃ e', forLoop (Gen.calculus_subtraction.for1_body fuel) [.int 0] E = .ok (.norm e') ∧
+          e'.residue = dstr q := by
+      intro E a1 a2 a3
+      obtain ⟨e', hb1, hr⟩ := h1 E a1 a2 a3
+      exact ⟨e', for1_once hb1, hr⟩
+    exact H _ (by rfl) (by rfl) (by rfl)
+  · intro e1 he1
+    rw [k4_spec fuel q hq e1 he1]; rfl
+
 end SubTie
 
+open SubTie in
 theorem tie_calculus_subtraction (s : Dec) (b fuel : Nat) (hs : Digits s) (hb : b < 10) (hne : s ≠ [])
     (hle : b ≤ s.toNat) (hf : s.length + 1 ≤ fuel) :
     Gen.calculus_subtraction fuel (dstr s) (dstr [b]) = .ok (dstr (calculusSubtraction s b)) := by
-  sorry
+  obtain ⟨P, last, rfl⟩ : ∃ P last, s = P ++ [last] :=
+    ⟨s.dropLast, s.getLast hne, (List.dropLast_concat_getLast hne).symm⟩
+  rw [Digits_append, Digits_singleton] at hs
+  obtain ⟨hP, hl⟩ := hs
+  by_cases hge : b ≤ last
+  · have hm : calculusSubtraction (P ++ [last]) b = stripZeros (P ++ [last - b]) := by
+      simp [calculusSubtraction, hge]
+    rw [hm]
+    refine body_spec fuel _ (by rw [Digits_append, Digits_singleton]; exact ⟨hP, hl⟩) b hb _
+      (by rw [Digits_append, Digits_singleton]; exact ⟨hP, by omega⟩) ?_
+    intro e hnum hbase hres
+    exact for1_body_ge fuel P hP last b hl hge e hnum hbase hres
+  · have hpos : 0 < Dec.toNat P := by
+      rw [toNat_append_singleton] at hle; omega
+    obtain ⟨A, d, z, rfl⟩ := prefix_shape P hpos
+    rw [Digits_append, Digits_cons] at hP
+    obtain ⟨hA, hd, _⟩ := hP
+    have hm : calculusSubtraction ((A ++ (d + 1) :: List.replicate z 0) ++ [last]) b =
+        stripZeros ((A ++ d :: List.replicate z 9) ++ [10 + last - b]) := by
+      have hrev : (A ++ (d + 1) :: List.replicate z 0).reverse = List.replicate z 0 ++ (d + 1) :: A.reverse := by
+        simp
+      simp only [calculusSubtraction, List.reverse_append, List.reverse_singleton, List.singleton_append, hrev]
+      rw [if_neg (by omega), borrow_replicate]
+      simp
+    rw [hm]
+    have hz : z < fuel := by
+      simp only [List.length_append, List.length_cons, List.length_replicate, List.length_nil] at hf; omega
+    refine body_spec fuel _ ?_ b hb _ ?_ ?_
+    · simp only [Digits_append, Digits_cons, Digits_nil, and_true]
+      exact ⟨⟨hA, hd, Digits_replicate (by omega)⟩, hl⟩
+    · simp only [Digits_append, Digits_cons, Digits_nil, and_true]
+      exact ⟨⟨hA, by omega, Digits_replicate (by omega)⟩, by omega⟩
+    · intro e hnum hbase hres
+      exact for1_body_lt fuel A d z hA hd hz last b hb (by omega) e hnum hbase hres
 
 end Dsw.Tie
